@@ -172,6 +172,20 @@ UNITS = [
       bound='the scalar guards are symbolic over every state; the label loop is unwound for at most 2 entries of POINT:LABELS',
       assumes=['by-name accessors resolve the literals POINT/ANALOG/USED/RATE/LABELS to the mandatory entries (ghost directory, '
                'VALID_C3D); updateParameters does not throw when called without new names (recording contract)']),
+    U('c3d_updateHeader', 'contracts/update_header.c', 'h_c3d_updateHeader', [], ['C05', 'C10', 'C13', 'C17', 'C19'], mode='bmc',
+      stubs={'Parameters__group__str': 'stubu_group', 'Group__parameter__str': 'stubu_parameter',
+             'Header__nbAnalogs__void': 'stubu_nbAnalogs', 'Header__nbAnalogs__sz': 'stubu_setNbAnalogs',
+             'Header__nbFrames': 'stubu_nbFrames', 'Header__nbAnalogByFrame__sz': 'stubu_setNbAnalogByFrame'},
+      unwind=8, timeout=900, level='PB', object_bits=12, sat='cvc5',
+      bound='complete symbolic execution (the updater has no loop of its own; literal copies unwound completely); header words '
+            'and the parameters they follow <= 65535 (16-bit header words); rates within 0..200000 Hz (where the float -> '
+            'integer conversions of the updater are defined)',
+      props={'memsafe': ['C13'], 'ub': ['C19', 'C13']},
+      assumes=['plain symbolic execution of the real updateHeader; by-name accessors resolve the literals POINT/ANALOG/USED/RATE/FRAMES '
+               'to the mandatory entries (ghost directory, VALID_C3D); the multiplying / dividing header getters and setters are '
+               'stubs = their proved contracts (units Header_nbAnalogs, Header_setNbAnalogs, Header_nbFrames, Header_setNbAnalogByFrame) '
+               'restated over the abstract view (sub-frames, channels, samples exact?) so that no multiplier enters the formula',
+               'SAMPLES_FIT: channels x sub-frames <= 65535 in every intermediate state (the 16-bit samples word; beyond it see finding C17)']),
     U('Parameters_write', WR, 'h_Parameters_write', ['Parameters__write/contract_Parameters__write'],
       ['C01', 'C03', 'C13', 'C14', 'C10'], replace=['Group__write/contract_abs_Group__write'], unwind=5, loops=True, timeout=900,
       pre_unwind={'vf_stream_write.0': 5, 'Parameters__write.0': 3},
